@@ -98,7 +98,7 @@ func runCheck(repo, verif, prop, tier string) int {
 		})
 		return r.Finish(verif, start, seed, loadInfo)
 	}
-	fn(p, r)
+	r.Guarded(func() { fn(p, r) })
 	if tier == "thorough" {
 		expl := r.Explanation
 		for _, dep := range nc.ThoroughDeps[prop] {
@@ -135,7 +135,7 @@ func sweep(repo, verif string, props []string) int {
 			continue
 		}
 		r := nc.NewRun(p, prop, "quick")
-		fn(p, r)
+		r.Guarded(func() { fn(p, r) })
 		n := 0
 		var lines []string
 		for _, o := range r.Obs {
@@ -197,7 +197,7 @@ func replay(repo, verif, path string) int {
 	}
 	_ = p.LoadFixtures(filepath.Join(verif, "checker", "testdata", "fixtures"))
 	r := nc.NewRun(p, o.Property, "quick")
-	fn(p, r)
+	r.Guarded(func() { fn(p, r) })
 	fmt.Printf("recorded obligation: %s\n  rule: %s — %s\n  status then: %s at %s\n  %s\n", o.ID, o.Rule, o.RuleText, o.Status, o.Pos, o.Detail)
 	for _, x := range o.Path {
 		fmt.Printf("    path: %s\n", x)
